@@ -181,6 +181,10 @@ impl SimNetwork {
         g.faults.on_message = on_message;
         g.link_counter.clear();
     }
+    /// Register a connection between two slots without a dial (stub that "dialled in").
+    pub fn link(&self, a: usize, b: usize) {
+        self.inner.lock().unwrap().conns.insert((a.min(b), a.max(b)));
+    }
     pub fn set_filter(&self, f: Arc<dyn Fn(&Frame) -> Option<String> + Send + Sync>) {
         self.inner.lock().unwrap().filter = Some(f);
     }
